@@ -5,4 +5,5 @@ Require Extraction.
 Require Import ExtrOcamlBasic ExtrOcamlString.
 Extraction Language OCaml.
 Extraction "../ocaml/c09/model.ml" encode_request serialize_request parse_frame frame_says
-  oversize batch_counts_match set_stream decompress.
+  oversize batch_counts_match set_stream decompress
+  batch_body_len header_len_field len32_class.
